@@ -69,7 +69,7 @@ class RoundTripStream(Stream):
         import req_compile.repos.solution as S
         from rv.core import digest
         try:
-            g, roots, repo, ins = TL.compile_og(case["og"])
+            g, roots, repo, ins = self._solve(case)
         except Exception as ex:
             return {"compile_error": type(ex).__name__}
         try:
@@ -112,6 +112,9 @@ class RoundTripStream(Stream):
             out["pip_error"] = type(ex).__name__ + ": " + str(ex)[:100]
         os.remove(path)
         return out
+
+    def _solve(self, case):
+        return TL.compile_og(case["og"])
 
     def model_request(self, case, r):
         if "text" not in r:
@@ -285,5 +288,60 @@ class WriterStream(Stream):
         return fl
 
 
+class RealFindLinksRoundTrip(RoundTripStream):
+    """the same round trip with the wheels on disk and the real FindLinksRepository computing names, locations and
+    SHA-256 digests (what the in-memory repository of the other stream only imitates)"""
+    name = "roundtrip-real-find-links"
+    quick_n = 120
+    thorough_n = 6000
+    batch = 40
+
+    def corpus(self):
+        return []
+
+    def generate(self, rng):
+        og = TL.gen_og(rng, allow_path_requirers=False)
+        for p in og["pins"]:
+            p["link"] = None
+            p["hash"] = None
+        return {"og": og, "opts": {"multiline": rng.random() < 0.6, "hashes": True, "urls": False, "annotate_source": rng.random() < 0.2}}
+
+    def _solve(self, case):
+        import hashlib
+        from req_compile.repos.findlinks import FindLinksRepository
+        from rv import backends as B
+        from rv.core import digest
+        d = os.path.join(self.tmp, "fl" + digest(case))
+        os.makedirs(d, exist_ok=True)
+        self._digests = {}
+        for p in case["og"]["pins"]:
+            extras = sorted({e for r in p["reqs"] for e in ("x", "y") if 'extra == "%s"' % e in r})
+            data = B.wheel_bytes(p["name"], p["version"], requires=p["reqs"], extras=extras)
+            with open(os.path.join(d, B.wheel_name(p["name"], p["version"])), "wb") as f:
+                f.write(data)
+            self._digests[GL.norm(p["name"])] = "sha256:" + hashlib.sha256(data).hexdigest()
+        return TL.compile_og(case["og"], repo=FindLinksRepository(d))
+
+    def impl(self, case):
+        out = RoundTripStream.impl(self, case)
+        out["file_digests"] = dict(getattr(self, "_digests", {}))
+        import shutil
+        from rv.core import digest
+        shutil.rmtree(os.path.join(self.tmp, "fl" + digest(case)), ignore_errors=True)
+        return out
+
+    def model_request(self, case, r):
+        return None
+
+    def oracle(self, case, r):
+        fails = RoundTripStream.oracle(self, case, r)
+        if "original" in r:
+            for k, p in r["original"]["pins"].items():
+                want = r["file_digests"].get(k)
+                if want is not None and p["hash"] != want:
+                    fails.append(("C06/written-hash-is-not-the-files-sha256/" + self._region(case, r), {"pin": k, "written": p["hash"], "file": want}))
+        return fails
+
+
 def streams():
-    return [RoundTripStream(), WriterStream()]
+    return [RoundTripStream(), WriterStream(), RealFindLinksRoundTrip()]
